@@ -56,6 +56,16 @@ func boundary() []Scenario {
 		{Op: "round", Nodes: all4, Byz: "honest"},
 		{Op: "logs", Nodes: []int{1}, Logs: seqInts(65, 67), BlkOff: 5},
 		{Op: "round", Nodes: []int{1, 0, 2, 3}, Byz: "copy1"}, {Op: "round", Nodes: []int{1, 0, 2, 3}, Byz: "copy1"}}})
+	// ... and then the log of the OLDER report arrives late: it must not release the work the nodes are still awaiting
+	// on the higher block, although the log is offered to them once more
+	ss = append(ss, Scenario{Family: "late-event-for-superseded-report", N: 4, F: 1, Byz: []int{3}, Steps: []Step{
+		{Op: "logs", Nodes: all4, Logs: seqInts(165, 167)}, {Op: "round", Nodes: all4, Byz: "honest"}, {Op: "restart", Nodes: []int{1}},
+		{Op: "round", Nodes: all4, Byz: "honest"},
+		{Op: "logs", Nodes: []int{1}, Logs: seqInts(165, 167), BlkOff: 5},
+		{Op: "round", Nodes: []int{1, 0, 2, 3}, Byz: "copy1"}, {Op: "round", Nodes: []int{1, 0, 2, 3}, Byz: "copy1"},
+		{Op: "events", Kind: "perform", Conf: 1, FirstOnly: true},
+		{Op: "logs", Nodes: all4, Logs: seqInts(165, 167), BlkOff: 9},
+		{Op: "round", Nodes: all4, Byz: "copy1"}, {Op: "round", Nodes: all4, Byz: "copy1"}, {Op: "round", Nodes: all4, Byz: "copy1"}}})
 	// a node that lacks part of the agreed work and gets the attested report late (after it built its next observation)
 	ss = append(ss, Scenario{Family: "late-report-partial-staging", N: 4, F: 1, Byz: []int{3}, Steps: []Step{
 		{Op: "logs", Nodes: []int{0, 1}, Logs: seqInts(45, 51)}, {Op: "logs", Nodes: []int{2}, Logs: seqInts(47, 51)},
